@@ -97,7 +97,7 @@ def monitors_child(rec):
     quick = rec.tier == 'quick'
     tmp = tempfile.mkdtemp(prefix='c09_', dir=os.path.join(VERIF, '.cache'))
     src = os.path.join(tmp, 'script.py'); open(src, 'w').close()
-    ev = 0; bad = 0; byclause = {}
+    ev = 0; bad = 0; byclause = {}; seen = set()
     modes = ['plain', 'zip-csv', 'zip-zip', 'zip-noext', 'archive']
     try:
         for k, df in enumerate(frames(rng, nrng, quick)):
@@ -108,6 +108,9 @@ def monitors_child(rec):
                 if not pre(df, com, mode, ff):
                     continue
                 ev += 1
+                seen.add((mode, ff, tuple(df.columns), df.shape, repr(df.iloc[0].tolist()), tuple(sorted(com.items()))))
+                if len(rec.samples) < 4:
+                    rec.samples.append(dict(kind='round-trip case', mode=mode, float_format=ff, comment=com, first_rows={c: [repr(v) for v in df[c].tolist()[:3]] for c in df.columns}, nrow=len(df)))
                 base = os.path.join(tmp, 'f%d_%s' % (k, mode.replace('-', '_')))
                 try:
                     if mode == 'plain':
@@ -138,11 +141,11 @@ def monitors_child(rec):
         shutil.rmtree(tmp, ignore_errors=True)
     rec.bounded_clause('write_csv -> read_csv: same column names and row count, equal non-empty text, integers equal, floats equal to the precision of the float format, caller comments + nrow / ncol returned unchanged',
                        '%d frames (1-5 columns of float / NaN / large / integer / text with commas, quotes, colons, hashes; 1-57 rows) x 5 storage modes (plain, zip with .csv / .zip / no extension, member of a caller archive in a sub-folder) x 4 float formats' % (40 if quick else 400),
-                       ev, ev, False, bad)
+                       ev, len(seen), False, bad)
 
 
 def run(tier):
-    r = Run('C09', tier, level='other')
+    r = Run('C09', tier, level='exploration')
     from vf import child
     res = child.run('props.C09', 'monitors_child', r.prop, r.tier, r.seed)
     child.merge(r, res['recorder'])
